@@ -5,7 +5,23 @@ import json, os, sys
 ALL = ["C%02d" % i for i in range(1, 21)]
 
 # id -> (technique, level text, level note, design ref)
+PROG_NOTE = "Trusted: refsem (reference interpreter over the generator's typed model) as the source meaning; miniGo (own Go-subset lexer/parser/type checker/interpreter) as the Go toolchain, calibrated on every run against the Go recorded from real runs of the corpus; shapes excluded by open known findings are counted in the evidence (excluded_by_gate). Absence beyond the explored programs is not shown."
 CLAIMED = {
+ "C01": ("differential PBT: reference interpreter of the generated typed program vs Go-subset interpreter of the emitted Go; type-directed program generator; corpus outputs recorded from real Go",
+         "Exploration: ~76k (quick) / ~1.1M (thorough) type-directed random programs in three size classes and five generator biases are compiled; stdout and end state (normal exit / division by zero / index out of range / failed match) of the emitted Go under miniGo must equal refsem's run of the source model; additionally the Go currently emitted for every corpus program must reproduce the output recorded from real Go.",
+         PROG_NOTE, "DESIGN.md §5 C01"),
+ "C02": ("generated programs -> emitted Go text judged by an independent Go-subset parser and type checker",
+         "Exploration: the same generator under all biases; the emitted Go text must parse and type-check under miniGo's checker (declare-before-use, redeclaration, assignability, call/return/literal typing, unused variables/imports, constant overflow and constant division by zero, missing return, type-switch rules, array lengths).",
+         PROG_NOTE, "DESIGN.md §5 C02"),
+ "C07": ("differential PBT biased to generics + invariants of the monomorphised IR",
+         "Exploration: generator biased to generic functions/types with composite type arguments (tuples, arrays, Vec, Ref, structs, enums, nested); behaviour oracle of C01 plus, on Compilation.mono: unique instance names, no more instances than distinct reachable type-argument tuples computed from the model, every referenced instance exists once, no TParam/TVar/TApp residue.",
+         PROG_NOTE, "DESIGN.md §5 C07"),
+ "C08": ("differential PBT biased to closures (captures, nesting, calls through variables)",
+         "Exploration: generator biased to closures capturing params/lets/pattern variables/Refs/other closures, nested closures, closures called from other scopes; behaviour oracle of C01. Flows of closures into declared function-typed positions are excluded while KF-05 is open (counted).",
+         PROG_NOTE, "DESIGN.md §5 C08"),
+ "C09": ("differential PBT on tick traces: effects planted in every operand/argument/condition/branch position",
+         "Exploration: generator biased to effects: print ticks in operands, call arguments, && / || operands, if/match/while conditions and branches, discarded lets, Ref updates, operations that fail at run time; the sequence of printed lines and the failure point of the emitted Go must equal the reference run. The goroutine part of the property (go e) is not yet covered by this check.",
+         PROG_NOTE, "DESIGN.md §5 C09"),
  "C05": ("exhaustive scope skeletons + shadowing-biased random programs; resolution read from the HIR and compared with the generator's binder for every use",
          "Exploration: every sequence of <=5 (quick) / <=6 (thorough) scope operations over two names (let, use, open/close if-block, match arm, closure, while body) is turned into a program, plus random longer skeletons and type-directed programs from a 3-name pool. For each accepted program every use's NameRef::Local id must equal the id of the binder the generator intended, a well-scoped program must not be rejected for scoping reasons, an unbound use must be rejected, and the compiled program must print the intended binder's value (reference interpreter vs Go-subset interpreter).",
          "Trusted: the harness' own scoping model (a stack), text-range matching of binders/uses, miniGo for the behavioural part. Depth beyond the enumerated skeleton length is only sampled.",
